@@ -680,3 +680,214 @@ func TestVerif_C08_CloseDuringSrflxMuxGather(t *testing.T) {
 		}
 	})
 }
+
+// TestVerif_C08_CloseFromBindingRequestHandler: the application's binding-request handler is a callback too;
+// Close called from inside it must return (D26: it is invoked inside the task loop, which Close waits for).
+func TestVerif_C08_CloseFromBindingRequestHandler(t *testing.T) {
+	st := vfNewStats(t)
+	rapid.Check(t, func(rt *rapid.T) {
+		controlling := rapid.Bool().Draw(rt, "controlling")
+		viaConn := rapid.Bool().Draw(rt, "viaConnClose")
+		var (
+			a        *Agent
+			returned = make(chan struct{})
+			once     sync.Once
+		)
+		cfg := simAgentConfig{
+			controlling: controlling, maxBinding: 7, disconnected: time.Hour, keepalive: 2 * time.Second, explicitTimeout: true,
+			extra: []AgentOption{WithBindingRequestHandler(func(*stun.Message, Candidate, Candidate, *CandidatePair) bool {
+				once.Do(func() {
+					if viaConn {
+						_ = (&Conn{agent: a}).Close()
+					} else {
+						_ = a.Close()
+					}
+					close(returned)
+				})
+
+				return false
+			})},
+		}
+		s, err := newSoloSim(cfg, []duoSockSpec{{Kind: simKindHost}}, []soloEpSpec{{Typ: CandidateTypeHost}})
+		if err != nil {
+			rt.Fatalf("harness: %v", err)
+		}
+		a = s.ag.a
+		if err := s.ag.start(s.peer.ufrag, s.peer.pwd); err != nil {
+			rt.Fatalf("harness: %v", err)
+		}
+		_ = s.ag.addRemoteSync(s.epCandidate(0, soloEpSpec{Typ: CandidateTypeHost}))
+		peerRole := "controlled"
+		if !controlling {
+			peerRole = "controlling"
+		}
+		go s.peerRequest(s.eps[0], s.ag.socks[0], false, nil, 100, peerRole, 77)
+		desc := fmt.Sprintf("controlling=%v viaConn=%v", controlling, viaConn)
+		st.Record(vfHashStr(desc), true, "close-from-binding-request-handler")
+		if st.WantSample() {
+			st.Sample(func() string { return desc })
+		}
+		select {
+		case <-returned:
+			s.close()
+		case <-time.After(8 * time.Second):
+			dead, dump := vfStuck("pion/ice/v4")
+			if dead {
+				// the task loop of this agent is gone for good; nothing to clean up
+				st.Fail(rt, "C08/close-from-handler/binding-request-handler-deadlock", "Close called from inside the binding-request handler did not return (%s)\n%s", desc, dump)
+
+				return
+			}
+			st.Inconclusive()
+			rt.Fatalf("VERIF-INCONCLUSIVE: Close from the binding-request handler still running after 8 s")
+		}
+	})
+}
+
+// TestVerif_C08_CloseWithActiveTCP: an agent with an active ICE-TCP candidate (real loopback TCP: the active
+// side dials through the OS) whose peer holds, closes or resets the connection; Close at a drawn moment —
+// while dialing, while healthy, or once the connection has died — returns in bounded time and leaves nothing
+// running.
+func TestVerif_C08_CloseWithActiveTCP(t *testing.T) {
+	st := vfNewStats(t)
+	probe, err := net.Listen("tcp4", "127.0.0.1:0") //nolint:noctx
+	if err != nil {
+		t.Skipf("no loopback TCP listener: %v", err)
+	}
+	_ = probe.Close()
+	rapid.Check(t, func(rt *rapid.T) {
+		peer := rapid.SampledFrom([]string{"hold", "reset", "reset", "close", "refuse"}).Draw(rt, "peerBehaviour")
+		after := time.Duration(rapid.IntRange(0, 30).Draw(rt, "peerActsAfterMs")) * time.Millisecond
+		when := rapid.SampledFrom([]string{"at-once", "after-accept", "once-dead", "once-dead"}).Draw(rt, "closeWhen")
+		flavour := rapid.SampledFrom([]string{"Close", "GracefulClose"}).Draw(rt, "flavour")
+		desc := fmt.Sprintf("peer=%s after=%s closeWhen=%s flavour=%s", peer, after, when, flavour)
+		before, _ := c08Census()
+		ln, err := net.Listen("tcp4", "127.0.0.1:0") //nolint:noctx
+		if err != nil {
+			rt.Fatalf("harness: %v", err)
+		}
+		port := ln.Addr().(*net.TCPAddr).Port //nolint:forcetypeassert
+		accepted := make(chan struct{}, 8)
+		var held []net.Conn
+		var hmu sync.Mutex
+		if peer == "refuse" {
+			_ = ln.Close()
+		} else {
+			go func() {
+				for {
+					c, err := ln.Accept()
+					if err != nil {
+						return
+					}
+					accepted <- struct{}{}
+					go func(c net.Conn) {
+						time.Sleep(after)
+						switch peer {
+						case "reset":
+							if tc, ok := c.(*net.TCPConn); ok {
+								_ = tc.SetLinger(0)
+							}
+							_ = c.Close()
+						case "close":
+							_ = c.Close()
+						default:
+							hmu.Lock()
+							held = append(held, c)
+							hmu.Unlock()
+						}
+					}(c)
+				}
+			}()
+		}
+		defer func() {
+			_ = ln.Close()
+			hmu.Lock()
+			for _, c := range held {
+				_ = c.Close()
+			}
+			hmu.Unlock()
+		}()
+		interval := 5 * time.Millisecond
+		a, err := NewAgent(&AgentConfig{
+			NetworkTypes: []NetworkType{NetworkTypeTCP4}, CandidateTypes: []CandidateType{CandidateTypeHost}, MulticastDNSMode: MulticastDNSModeDisabled,
+			IncludeLoopback: true, IPFilter: func(ip net.IP) bool { return ip.IsLoopback() }, CheckInterval: &interval, LoggerFactory: simLoggerFactory,
+		})
+		if err != nil {
+			rt.Fatalf("harness: %v", err)
+		}
+		if _, err := a.StartDial("remoteufragXY", "remotepasswordremotepassword"); err != nil {
+			rt.Fatalf("harness: %v", err)
+		}
+		rc, err := UnmarshalCandidate(fmt.Sprintf("1052353102 1 tcp 1675624447 127.0.0.1 %d typ host tcptype passive", port))
+		if err != nil {
+			rt.Fatalf("harness: %v", err)
+		}
+		_ = a.AddRemoteCandidate(rc)
+		dead := false
+		switch when {
+		case "after-accept", "once-dead":
+			if peer != "refuse" {
+				select {
+				case <-accepted:
+				case <-time.After(5 * time.Second):
+				}
+			}
+			if when == "once-dead" && (peer == "reset" || peer == "close") {
+				// wait until the active connection has noticed that it is dead
+				for d := time.Now().Add(3 * time.Second); time.Now().Before(d) && !dead; {
+					_ = a.loop.Run(a.loop, func(context.Context) {
+						for _, cs := range a.localCandidates {
+							for _, c := range cs {
+								if h, ok := c.(*CandidateHost); ok && h.TCPType() == TCPTypeActive {
+									if ac, ok := h.conn.(*activeTCPConn); ok && ac.closed.Load() {
+										dead = true
+									}
+								}
+							}
+						}
+					})
+					time.Sleep(2 * time.Millisecond)
+				}
+			}
+		}
+		done := make(chan struct{})
+		go func() {
+			if flavour == "GracefulClose" {
+				_ = a.GracefulClose()
+			} else {
+				_ = a.Close()
+			}
+			close(done)
+		}()
+		select {
+		case <-done:
+		case <-time.After(20 * time.Second):
+			stuck, dump := vfStuck("pion/ice/v4")
+			if stuck {
+				st.Fail(rt, "C08/close/never-returns", "%s did not return with an active TCP candidate (%s, connection dead=%v)\n%s", flavour, desc, dead, dump)
+			}
+			st.Inconclusive()
+			rt.Fatalf("VERIF-INCONCLUSIVE: %s still running after 20 s (%s)", flavour, desc)
+		}
+		st.Record(vfHashStr(desc), dead, fmt.Sprintf("connection-dead-before-close:%v", dead), "peer:"+peer)
+		if dead && st.WantSample() {
+			st.Sample(func() string { return desc })
+		}
+		_ = ln.Close()
+		ok := false
+		var now int
+		var sample string
+		for d := time.Now().Add(5 * time.Second); time.Now().Before(d); {
+			now, sample = c08Census()
+			if now <= before {
+				ok = true
+
+				break
+			}
+			time.Sleep(2 * time.Millisecond)
+		}
+		if !ok {
+			st.Fail(rt, "C08/final/goroutine-left", "%d pion/ice goroutine(s) before, %d still running 5 s after %s returned (%s), e.g.\n%s", before, now, flavour, desc, sample)
+		}
+	})
+}
